@@ -13,7 +13,7 @@ def run(ctx):
     nrand = 300 if ctx.tier == "quick" else 6000
     maxlen = 12
     L = 2 * maxlen + 2
-    schemes = vers.pick_schemes(r, L, want=3 if ctx.tier == "quick" else 6, always=("SemverVersion", "PypiVersion"))
+    schemes = vers.pick_schemes(r, L, want=4 if ctx.tier == "quick" else 7, always=("SemverVersion", "PypiVersion", "MavenVersion"))
     ctx.say("schemes:", [s.name for s in schemes])
     # ---- cases: (pattern, probes)
     cases = []
